@@ -184,18 +184,28 @@ def c19_long_code(v, spec):
 
 
 @pred('C13-uamiv-read-long-steps')
-def c13_uamiv_long_steps(v, spec):
+def c13_uamiv_step_count(v, spec):
     # uamiv.Read derives the number of time steps from the file header's
-    # start/end stamps with hour/HHMM heuristics (timediff with a unit picked
-    # from time_step % 2); for steps of 12 h or more the count comes out
-    # smaller than the number of steps in the file, the memory-map reader
-    # counts records and is right.
+    # start/end stamps with hour-vs-HHMM heuristics (timediff with a unit
+    # picked from time_step % 2) and without day arithmetic.  The count is
+    # wrong (0, too few, or 100x too many) when the file's stamps run past
+    # midnight or when the step is an even number of hours; the memory-map
+    # reader counts records and is right.  For EMISSIONS files the
+    # one-layer defect (C13-uamiv-read-emissions-one-layer) shows up in the
+    # same comparison.
+    from . import refcamx
+    if not v['kind'] == 'readers-disagree:uamiv':
+        return False
+    st = refcamx.step_times(spec)
+    past_midnight = st[0][0] != st[-1][0]
+    even = spec.get('dhour', 1) % 2 == 0
+    if not (past_midnight or even):
+        return False
     pr = v.get('problems') or []
-    return (v['kind'] == 'readers-disagree:uamiv' and
-            spec.get('dhour', 1) >= 12 and bool(pr) and
-            any('dimension TSTEP' in p for p in pr) and
-            all(('TSTEP' in p) or ('shape' in p) or ('TFLAG' in p)
-                for p in pr))
+    emis = spec.get('name') == 'EMISSIONS' and spec.get('nz', 1) > 1
+    return (bool(pr) and any('dimension TSTEP' in p for p in pr) and
+            all(('TSTEP' in p) or ('shape' in p) or ('TFLAG' in p) or
+                (emis and 'dimension LAY' in p) for p in pr))
 
 
 def _crosses_year(spec):
@@ -229,3 +239,22 @@ def c20_file_saturation(v, spec):
             all('read value off by' in p for p in pr) and
             all(r < 1.6 for r in v.get('ratios', [9])) and
             all(h > 0.99 for h in v.get('headrooms', [0])))
+
+
+@pred('C14-bpch2-partial-last-step')
+def c14_bpch2_partial(v, spec):
+    # The block-walking reader (bpch2) indexes whatever complete data blocks
+    # it finds: when a file is cut inside a later time step it exposes that
+    # unfinished step through the blocks that are complete (time dimension
+    # and tau0 one longer than the complete steps; tracers whose block is
+    # missing have one step fewer).  All values it returns are genuine.
+    # The public bpch class falls back to this reader whenever the
+    # memory-mapped reader raises, which it does for cuts inside a block.
+    # (Only inside the FIRST time step: with a complete step in the prefix
+    # the memory-mapped reader itself succeeds and exposes complete steps.)
+    return ((v['kind'].startswith('silent-misread:bpch2:') or
+             (v['kind'].startswith('silent-misread:bpch:') and
+              v.get('complete_steps') == 0)) and
+            v.get('fmt') in ('bpch2', 'bpch') and
+            ('steps exposed' in v['msg'] or 'complete ones' in v['msg'])
+            and v.get('outcome') == 'returned')
